@@ -503,7 +503,7 @@ MAX_COST = 3
 
 def programs(tier, seed):
     P = fixed_programs()
-    n = 60 if tier == "quick" else 1400
+    n = 110 if tier == "quick" else 1400
     rnd = random.Random(3600001 * seed + 36)
     seen = {p["src"] for p in P}
     k = 0
